@@ -8,43 +8,49 @@ import BfeVerif.C35.Proofs
 -/
 namespace BfeVerif.C35
 
-/-! ### the RFC 7540 rules, one theorem per rule (each for every connection state) -/
+/-! ### the RFC 7540 rules, one theorem per rule (each for every connection state in which no GOAWAY has been
+    started; `cstepCore` is the step of a connection whose frame reader is alive) -/
 
 /-- even (or zero) stream id on HEADERS ⇒ connection error PROTOCOL_ERROR -/
-theorem C35_rule_even_id (c : Conn) (id : Nat) (es : Bool) (k : Kind) (h : id % 2 ≠ 1) :
-    (cstep c (.H id es k)).2 = .ga 1 := by
+theorem C35_rule_even_id (c : Conn) (id : Nat) (es : Bool) (k : Kind) (hg : c.goAway = none) (h : id % 2 ≠ 1) :
+    (cstepCore c (.H id es k)).2 = .ga 1 := by
   have h2 : id % 2 = 0 := by omega
-  simp [cstep, h2]
+  by_cases h0 : id = 0
+  · simp [cstepCore, headersEv, connErr, hg, h0]
+  · simp [cstepCore, headersEv, connErr, hg, h0, h2]
 
 /-- a new stream whose id is not above every earlier one ⇒ connection error PROTOCOL_ERROR -/
-theorem C35_rule_non_increasing (c : Conn) (id : Nat) (es : Bool) (k : Kind) (hodd : id % 2 = 1)
-    (hnl : (c.streams id).live = false) (hle : id ≤ c.maxId) :
-    (cstep c (.H id es k)).2 = .ga 1 := by
-  simp [cstep, hodd, hnl, hle]
+theorem C35_rule_non_increasing (c : Conn) (id : Nat) (es : Bool) (k : Kind) (hg : c.goAway = none)
+    (hodd : id % 2 = 1) (hnl : (c.streams id).live = false) (hle : id ≤ c.maxId) :
+    (cstepCore c (.H id es k)).2 = .ga 1 := by
+  have h0 : id ≠ 0 := by omega
+  simp [cstepCore, headersEv, connErr, hg, h0, hodd, hnl, hle]
 
 /-- a HEADERS frame that would exceed the advertised SETTINGS_MAX_CONCURRENT_STREAMS is never served:
     bfe treats it as an attack and closes the connection (instead of the REFUSED_STREAM / PROTOCOL_ERROR
-    stream error of the RFC). -/
-theorem C35_rule_over_limit (c : Conn) (id : Nat) (es : Bool) (k : Kind) (hodd : id % 2 = 1)
+    stream error of RFC 7540 5.1.2 — known finding `limit-closes-connection`). -/
+theorem C35_rule_over_limit (c : Conn) (id : Nat) (es : Bool) (k : Kind) (hg : c.goAway = none) (hodd : id % 2 = 1)
     (hnl : (c.streams id).live = false) (hgt : c.maxId < id) (hover : c.cur + 1 > c.adv) :
-    (cstep c (.H id es k)).2 = .close := by
+    (cstepCore c (.H id es k)).2 = .close := by
+  have h0 : id ≠ 0 := by omega
   have : ¬ id ≤ c.maxId := by omega
-  simp [cstep, hodd, hnl, this, Conn.upd, sstep, hover]
+  simp [cstepCore, headersEv, hg, h0, hodd, hnl, this, Conn.upd, sstep, hover]
 
 /-- within the limit, a request with malformed pseudo-headers (no :method …) ⇒ stream error PROTOCOL_ERROR,
     and the stream is closed -/
-theorem C35_rule_bad_pseudo (c : Conn) (id : Nat) (es : Bool) (hodd : id % 2 = 1)
+theorem C35_rule_bad_pseudo (c : Conn) (id : Nat) (es : Bool) (hg : c.goAway = none) (hodd : id % 2 = 1)
     (hnl : (c.streams id).live = false) (hgt : c.maxId < id) (hin : ¬ c.cur + 1 > c.adv) :
-    (cstep c (.H id es .bad)).2 = .rst 1 ∧ ((cstep c (.H id es .bad)).1.streams id).phase = .closedReset := by
+    (cstepCore c (.H id es .bad)).2 = .rst 1 ∧ ((cstepCore c (.H id es .bad)).1.streams id).phase = .closedReset := by
+  have h0 : id ≠ 0 := by omega
   have : ¬ id ≤ c.maxId := by omega
-  simp [cstep, hodd, hnl, this, Conn.upd, sstep, hin]
+  simp [cstepCore, headersEv, hg, h0, hodd, hnl, this, Conn.upd, sstep, hin]
 
 /-- DATA on a stream that is not open (idle, half-closed(remote), closed, or after trailers) ⇒ STREAM_CLOSED -/
-theorem C35_rule_data_not_open (c : Conn) (id n : Nat) (es : Bool) (h0 : id ≠ 0)
+theorem C35_rule_data_not_open (c : Conn) (id n : Nat) (es : Bool) (hg : c.goAway = none) (h0 : id ≠ 0)
     (h : (c.streams id).phase ≠ .opn ∨ (c.streams id).trailer = true) :
-    (cstep c (.D id n es)).2 = .rst 5 := by
+    (cstepCore c (.D id n es)).2 = .rst 5 := by
   have h0' : (id == 0) = false := by simpa using h0
-  simp only [cstep, h0', Bool.false_eq_true, if_false, Conn.upd, sstep]
+  simp only [cstepCore, h0', Bool.false_eq_true, if_false, discardData, hg, Conn.upd, sstep]
   have : (!((c.streams id).live && (c.streams id).phase == .opn && !(c.streams id).trailer)) = true := by
     rcases h with h | h
     · simp [h]
@@ -53,36 +59,64 @@ theorem C35_rule_data_not_open (c : Conn) (id n : Nat) (es : Bool) (h0 : id ≠ 
 
 /-- HEADERS on a half-closed(remote) stream ⇒ stream error STREAM_CLOSED and the stream is closed
     (after the fix; before it the frame was taken for trailers and could dereference a nil body pipe) -/
-theorem C35_rule_headers_half_closed (c : Conn) (id : Nat) (es : Bool) (k : Kind) (hodd : id % 2 = 1)
-    (h : (c.streams id).phase = .hcr) :
-    (cstep c (.H id es k)).2 = .rst 5 ∧ ((cstep c (.H id es k)).1.streams id).phase = .closedReset := by
-  simp [cstep, hodd, h, SS.live, Conn.upd, sstep, closeReset]
+theorem C35_rule_headers_half_closed (c : Conn) (id : Nat) (es : Bool) (k : Kind) (hg : c.goAway = none)
+    (hodd : id % 2 = 1) (h : (c.streams id).phase = .hcr) :
+    (cstepCore c (.H id es k)).2 = .rst 5 ∧ ((cstepCore c (.H id es k)).1.streams id).phase = .closedReset := by
+  have h0 : id ≠ 0 := by omega
+  simp [cstepCore, headersEv, hg, h0, hodd, h, SS.live, Conn.upd, sstep, closeReset]
 
 /-- trailers without END_STREAM ⇒ stream error PROTOCOL_ERROR -/
-theorem C35_rule_trailers_without_end (c : Conn) (id : Nat) (k : Kind) (hodd : id % 2 = 1)
+theorem C35_rule_trailers_without_end (c : Conn) (id : Nat) (k : Kind) (hg : c.goAway = none) (hodd : id % 2 = 1)
     (h : (c.streams id).phase = .opn) (ht : (c.streams id).trailer = false) :
-    (cstep c (.H id false k)).2 = .rst 1 := by
-  simp [cstep, hodd, h, ht, SS.live, Conn.upd, sstep]
+    (cstepCore c (.H id false k)).2 = .rst 1 := by
+  have h0 : id ≠ 0 := by omega
+  simp [cstepCore, headersEv, hg, h0, hodd, h, ht, SS.live, Conn.upd, sstep]
 
 /-- a second trailer block ⇒ connection error PROTOCOL_ERROR -/
-theorem C35_rule_duplicate_trailers (c : Conn) (id : Nat) (es : Bool) (k : Kind) (hodd : id % 2 = 1)
-    (h : (c.streams id).phase = .opn) (ht : (c.streams id).trailer = true) :
-    (cstep c (.H id es k)).2 = .ga 1 := by
-  simp [cstep, hodd, h, ht, SS.live, Conn.upd, sstep]
+theorem C35_rule_duplicate_trailers (c : Conn) (id : Nat) (es : Bool) (k : Kind) (hg : c.goAway = none)
+    (hodd : id % 2 = 1) (h : (c.streams id).phase = .opn) (ht : (c.streams id).trailer = true) :
+    (cstepCore c (.H id es k)).2 = .ga 1 := by
+  have h0 : id ≠ 0 := by omega
+  simp [cstepCore, headersEv, hg, h0, hodd, h, ht, SS.live, Conn.upd, sstep]
 
 /-- more DATA than the declared content-length ⇒ stream error PROTOCOL_ERROR -/
-theorem C35_rule_over_declared (c : Conn) (id n d : Nat) (es : Bool) (h0 : id ≠ 0)
+theorem C35_rule_over_declared (c : Conn) (id n d : Nat) (es : Bool) (hg : c.goAway = none) (h0 : id ≠ 0)
     (h : (c.streams id).phase = .opn) (ht : (c.streams id).trailer = false) (hb : (c.streams id).hasBody = true)
     (hd : (c.streams id).decl = some d) (hov : (c.streams id).got + n > d) :
-    (cstep c (.D id n es)).2 = .rst 1 := by
+    (cstepCore c (.D id n es)).2 = .rst 1 := by
   have h0' : (id == 0) = false := by simpa using h0
-  simp [cstep, h0', h, ht, hb, SS.live, Conn.upd, sstep, overDeclared, hd, hov]
+  simp [cstepCore, h0', discardData, hg, h, ht, hb, SS.live, Conn.upd, sstep, overDeclared, hd, hov]
 
 /-- RST_STREAM for an idle stream ⇒ connection error PROTOCOL_ERROR -/
-theorem C35_rule_rst_idle (c : Conn) (id : Nat) (h0 : id ≠ 0) (hnl : (c.streams id).live = false) (hgt : c.maxId < id) :
-    (cstep c (.R id)).2 = .ga 1 := by
+theorem C35_rule_rst_idle (c : Conn) (id : Nat) (hg : c.goAway = none) (h0 : id ≠ 0)
+    (hnl : (c.streams id).live = false) (hgt : c.maxId < id) :
+    (cstepCore c (.R id)).2 = .ga 1 := by
   have h0' : (id == 0) = false := by simpa using h0
-  simp [cstep, h0', hnl, hgt]
+  simp [cstepCore, connErr, hg, h0', hnl, hgt]
+
+/-- CONTINUATION sequencing errors, PING / PRIORITY / WINDOW_UPDATE(0) / SETTINGS violations are connection errors -/
+theorem C35_rule_frame_sequence (c : Conn) (id : Nat) (hg : c.goAway = none) :
+    (cstepCore c (.C id)).2 = .ga 1 ∧ (cstepCore c (.X id)).2 = .ga 1 ∧
+    (id ≠ 0 → (cstepCore c (.G id false)).2 = .ga 1) ∧ (cstepCore c (.Y 0 id false)).2 = .ga 1 ∧
+    (cstepCore c (.U 0 0)).2 = .ga 1 := by
+  refine ⟨by simp [cstepCore, connErr, hg], by simp [cstepCore, connErr, hg], ?_, by simp [cstepCore, connErr, hg],
+    by simp [cstepCore, connErr, hg]⟩
+  intro h; simp [cstepCore, connErr, hg, h]
+
+/-- the inGoAway rules: once a GOAWAY is under way HEADERS are ignored (no stream is created, nothing is sent) and
+    further connection errors send nothing; after an error GOAWAY every DATA frame is discarded -/
+theorem C35_rule_in_goaway (c : Conn) (code id n : Nat) (es : Bool) (k : Kind) (hg : c.goAway = some code) (h0 : id ≠ 0) :
+    cstepCore c (.H id es k) = (c, .ok) ∧ (code ≠ 0 → cstepCore c (.D id n es) = (c, .ok)) ∧
+    (cstepCore c .Q).2 = .ok := by
+  have h0' : (id == 0) = false := by simpa using h0
+  refine ⟨by simp [cstepCore, headersEv, hg, h0], ?_, by simp [cstepCore, hg]⟩
+  intro hc
+  simp [cstepCore, h0', discardData, hg, hc]
+
+/-- after a framing-level connection error the frame reader is gone: no client frame has any effect -/
+theorem C35_rule_reader_gone (c : Conn) (e : Ev) (hc : e.isClient = true) (hg : c.gone = true) :
+    cstep c e = (c, .gone) := by
+  simp [cstep, hc, hg]
 
 /-! ### no internal failure -/
 
@@ -117,5 +151,11 @@ example : (runEvs { adv := 3 } [.H 1 false .ok, .D 1 3 false, .H 1 true .tr, .H 
     = [.ok, .ok, .ok, .ok, .held, .ok, .ok, .held, .ok] := by decide
 
 example : (runEvs { adv := 1 } [.H 1 true .ok, .H 3 true .ok] []).2 = [.ok, .close] := by decide
+
+/-- the larger alphabet: SETTINGS ACK, WINDOW_UPDATE, graceful shutdown (HEADERS ignored, DATA still accepted),
+    PING, a framing error that ends the frame reader, and the handler finishing afterwards -/
+example : (runEvs { adv := 3 } [.S true none, .H 1 false .ok, .U 1 1000, .Q, .H 3 true .ok, .D 1 1 false,
+    .G 0 false, .C 1, .R 1, .F 1] []).2
+    = [.ok, .ok, .ok, .ga 0, .ok, .ok, .ok, .ok, .gone, .held] := by decide
 
 end BfeVerif.C35
